@@ -180,7 +180,7 @@ pub fn run_scenario(sc: &Scenario) -> Outcome {
     let chook = SnapHook::new(Side::Client, sc.client.conn_window());
     let shook = SnapHook::new(Side::Server, sc.server.conn_window());
     let keeper: Keeper = Rc::new(RefCell::new(None));
-    let keep = !sc.second_wave.is_empty();
+    let keep = !sc.second_wave.is_empty() || sc.ending.is_some();
     let cctx = Ctx { conn: 0, side: Side::Client };
     let sctx = Ctx { conn: 0, side: Side::Server };
     let all_specs: Vec<StreamSpec> = sc.streams.iter().chain(sc.second_wave.iter()).cloned().collect();
@@ -198,7 +198,66 @@ pub fn run_scenario(sc: &Scenario) -> Outcome {
     let mut extra_viol: Vec<Violation> = Vec::new();
     let mut stats = Stats::default();
     let mut notes = Vec::new();
-    let mut end = sim::run(sc.max_steps);
+    let mut end;
+    let mut t_ending: Option<u64> = None;
+    if let Some(en) = sc.ending {
+        // ---- C07: run up to the crash point, end the connection, run on, then probe the handles
+        end = sim::run(en.at_step.max(1));
+        if end == RunEnd::Budget {
+            t_ending = Some(sim::log(0, EvK::Note(format!("ending {:?} applied at step {}", en.kind, en.at_step))));
+            stats.inc(&format!("ending.{}", match en.kind { EndKind::AbruptShutdown(_) => "AbruptShutdown".to_string(), k => format!("{:?}", k) }));
+            match en.kind {
+                EndKind::CutEof | EndKind::CutReset => {
+                    let k = if en.kind == EndKind::CutEof { sim::FaultKind::CutEof } else { sim::FaultKind::CutReset };
+                    let wakers: Vec<_> = sim::with(|w| {
+                        let sim::World { pipes, trace, .. } = w;
+                        (0..2).filter_map(|d| pipes[0].force_fault(d, k, trace)).collect()
+                    });
+                    for w in wakers {
+                        w.wake();
+                    }
+                }
+                EndKind::DropClientConn => send_cmd(&client_ctl, ConnCmd::Op(ConnOpKind::DropConn)),
+                EndKind::DropServerConn => send_cmd(&server_ctl, ConnCmd::Op(ConnOpKind::DropConn)),
+                EndKind::AbruptShutdown(c) => send_cmd(&server_ctl, ConnCmd::Op(ConnOpKind::AbruptShutdown(c))),
+                EndKind::GracefulShutdown => send_cmd(&server_ctl, ConnCmd::Op(ConnOpKind::GracefulShutdown)),
+            }
+            end = sim::run(sc.max_steps);
+            // probe phase: a fresh request and a ping on the handles that are still alive
+            if end == RunEnd::Quiescent {
+                let sr = keeper.borrow().as_ref().cloned();
+                if let Some(sr) = sr {
+                    let mut probe = sc.streams[0].clone();
+                    probe.idx = 900;
+                    probe.pushes.clear();
+                    probe.start_delay = 0;
+                    probe.client_cancel_after = None;
+                    stats.inc("probe_requests");
+                    let done = Rc::new(RefCell::new(0u32));
+                    sim::spawn("client-probe", TaskKind::App, client_requester(cctx.clone(), sr, vec![probe], done));
+                }
+                if !client_ctl.borrow().done {
+                    send_cmd(&client_ctl, ConnCmd::Op(ConnOpKind::Ping));
+                }
+                if !server_ctl.borrow().done {
+                    send_cmd(&server_ctl, ConnCmd::Op(ConnOpKind::Ping));
+                }
+                end = sim::run(sc.max_steps);
+            }
+        } else {
+            stats.inc("ending.after_natural_end");
+        }
+        let k = keeper.borrow_mut().take();
+        if let Some(k) = k {
+            let _ = catch_unwind(AssertUnwindSafe(move || drop(k)));
+        }
+        if end == RunEnd::Quiescent {
+            end = sim::run(sc.max_steps);
+        }
+    } else {
+        end = sim::run(sc.max_steps);
+    }
+    let keep = keep && sc.ending.is_none();
 
     // ---- C19: mid-scenario quiescence with the connection alive, then a second wave
     if keep && end == RunEnd::Quiescent {
@@ -298,7 +357,7 @@ pub fn run_scenario(sc: &Scenario) -> Outcome {
             stats.merge(&out.stats);
             fp.add_u64(out.fp);
         }
-        let api = mon::api::check(&view, Some(&sc), quiescent);
+        let api = mon::api::check_with_ending(&view, Some(&sc), quiescent, t_ending);
         violations.extend(api.violations);
         stats.merge(&api.stats);
         // acknowledgement completeness at quiescence, for endpoints whose connection is alive and unfaulted
@@ -427,7 +486,7 @@ pub fn fmt_ev(w: &sim::World, e: &crate::trace::Ev) -> String {
 }
 
 fn check_idle_close(view: &View, sc: &Scenario, quiescent: bool, out: &mut Vec<Violation>, stats: &mut Stats) {
-    if !quiescent || !sc.faults.is_empty() {
+    if !quiescent || !sc.faults.is_empty() || sc.ending.is_some() {
         return;
     }
     // Did the client connection future complete with Ok?
